@@ -11,6 +11,11 @@ Reference model: a template is a list of parts (`Text(s)` / `Hole(label, formatt
   (`fmt::Formatter`), `Render::write(&mut String)`, a writer that only has the trait defaults,
   a writer that records every callback, `Template`'s own `Display` and `Event::msg()`; all must
   produce the reference text, and the recorded callbacks must be the model's parts (text merged).
+* **outer format flags**: `format!("{:>12}", render)`, `{:.5}`, `{:<8.3}`, `{:^20}`, `{:08}`, ... on
+  `Render`, on `Template` itself and nested in another Display's `write!(f, "{:6}", render)`:
+  text fragments are verbatim (never padded / truncated); a hole value is what std formatting of
+  the model value (through the hole's formatter) gives under the same spec, `{label}` verbatim;
+  `==` templates render identically under the same flags.
 * **equality**: `a == b` ⇔ equal normal forms, asked in both argument orders, on re-splittings,
   one-edit neighbours, independently drawn pairs and all construction variants of one model;
   reflexive; transitive on triples (on the implementation's own answers); never panics.
@@ -128,9 +133,17 @@ fn f_twice(v: Value, f: &mut fmt::Formatter) -> fmt::Result {
 fn f_nothing(_: Value, _: &mut fmt::Formatter) -> fmt::Result {
     Ok(())
 }
+/// Hands the value the formatter it was given: the only formatter here that sees the flags of an
+/// outer placeholder (`format!("{:>12}", render)`). Used by the outer-format-flags section only.
+fn f_outer(v: Value, f: &mut fmt::Formatter) -> fmt::Result {
+    fmt::Display::fmt(&v, f)
+}
 
 type FmtFn = fn(Value, &mut fmt::Formatter) -> fmt::Result;
-const FORMATTERS: [FmtFn; 6] = [f_brackets, f_debug, f_pad, f_const, f_twice, f_nothing];
+const FORMATTERS: [FmtFn; 7] = [f_brackets, f_debug, f_pad, f_const, f_twice, f_nothing, f_outer];
+/// The seeded generators draw from the first six (their streams are unchanged by `f_outer`).
+const GEN_FORMATTERS: usize = 6;
+const F_OUTER: usize = 6;
 
 struct Applied<'a>(FmtFn, &'a Val);
 
@@ -387,7 +400,7 @@ fn gen_model_aliased(g: &mut Rng, ar: &Arena, max_parts: usize) -> Model {
     (0..n)
         .map(|_| {
             if g.chance(2, 5) {
-                let f = if g.chance(1, 5) { Some(g.usize(FORMATTERS.len())) } else { None };
+                let f = if g.chance(1, 5) { Some(g.usize(GEN_FORMATTERS)) } else { None };
                 MPart::Hole(ar.slice(g).to_string(), f)
             } else {
                 MPart::Text(ar.slice(g).to_string())
@@ -441,7 +454,7 @@ fn gen_model(g: &mut Rng, max_parts: usize, sub: bool) -> Model {
     for _ in 0..n {
         if g.chance(2, 5) {
             let label = if sub { *g.pick(&LABELS[..3]) } else { *g.pick(&LABELS) };
-            let f = if g.chance(1, 4) { Some(g.usize(FORMATTERS.len())) } else { None };
+            let f = if g.chance(1, 4) { Some(g.usize(GEN_FORMATTERS)) } else { None };
             m.push(MPart::Hole(label.to_string(), f));
         } else if sub {
             // tiny space: unrelated pairs collide often
@@ -469,7 +482,7 @@ fn resplit(g: &mut Rng, m: &[MPart]) -> Model {
         sprinkle(g, &mut out);
         match p {
             NPart::Hole(l) => {
-                let f = if g.chance(1, 4) { Some(g.usize(FORMATTERS.len())) } else { None };
+                let f = if g.chance(1, 4) { Some(g.usize(GEN_FORMATTERS)) } else { None };
                 out.push(MPart::Hole(l, f));
             }
             NPart::Text(s) => {
@@ -891,6 +904,326 @@ fn check_eq(r: &mut Report, cx: &Ctx, a: &Template, ma: &[MPart], b: &Template, 
     }
 }
 
+// ---------------------------------------------------------------------------
+// outer format flags: `format!("{:>12}", tpl.render(props))`, `{:.5}` on Template, nested `write!`
+// ---------------------------------------------------------------------------
+//
+// Rendering through `Display` hands the template the `fmt::Formatter` of the OUTER placeholder,
+// flags included. The statement says text fragments are written verbatim to any writer: a
+// fragment is never padded to the width nor truncated to the precision of that placeholder.
+// Holes: the unchanged tree hands the outer formatter to the value (a hole without formatter is
+// `Display::fmt(&value, f)`, a hole with a formatter gets `formatter.fmt(value, f)`, an absent
+// hole is written as `{label}` through `write_fmt`, which starts from default flags). The model
+// does exactly that with std: the model value (or `Applied(formatter, value)`) formatted with the
+// same literal spec; `{label}` verbatim.
+
+/// Format specs must be literals: one list, from which the table and both dispatchers are made.
+macro_rules! outer_specs {
+    ($(($idx:literal, $spec:literal, $class:literal)),* $(,)?) => {
+        /// (literal spec, flag class)
+        const SPECS: &[(&str, &str)] = &[$(($spec, $class)),*];
+        fn fmt_spec(i: usize, x: &dyn fmt::Display) -> String {
+            match i {
+                $($idx => format!($spec, x),)*
+                _ => unreachable!("no such spec"),
+            }
+        }
+        fn write_spec(f: &mut fmt::Formatter, i: usize, x: &dyn fmt::Display) -> fmt::Result {
+            match i {
+                $($idx => write!(f, $spec, x),)*
+                _ => unreachable!("no such spec"),
+            }
+        }
+    };
+}
+
+outer_specs![
+    (0, "{:>12}", "width"),
+    (1, "{:.5}", "precision"),
+    (2, "{:<8.3}", "width-precision"),
+    (3, "{:^20}", "fill-align"),
+    (4, "{:08}", "zero-pad"),
+    (5, "{:6}", "width"),
+    (6, "{:.0}", "precision"),
+    (7, "{:*<3.1}", "fill-align"),
+    (8, "{:.2}", "precision"),
+    (9, "{:+}", "sign"),
+    (10, "{:-^9.4}", "fill-align"),
+];
+const SPEC_W6: usize = 5;
+const SPEC_P2: usize = 8;
+
+/// Another `Display` whose `fmt` does `write!(f, "{:6}", inner)`.
+struct Nested<'a>(&'a dyn fmt::Display, usize);
+
+impl<'a> fmt::Display for Nested<'a> {
+    fn fmt(&self, f: &mut fmt::Formatter) -> fmt::Result {
+        write_spec(f, self.1, self.0)
+    }
+}
+
+fn val_spec(v: &Val, spec: usize) -> String {
+    match v {
+        Val::I(x) => fmt_spec(spec, x),
+        Val::S(x) => fmt_spec(spec, x),
+        Val::B(x) => fmt_spec(spec, x),
+        Val::F(x) => fmt_spec(spec, x),
+    }
+}
+
+fn reference_render_spec(m: &[MPart], props: &[Entry], spec: usize) -> String {
+    let mut out = String::new();
+    for p in m {
+        match p {
+            MPart::Text(s) => out.push_str(s),
+            MPart::Hole(l, f) => match (first_wins(props, l), f) {
+                (Some(v), Some(i)) => out.push_str(&fmt_spec(spec, &Applied(FORMATTERS[*i], v))),
+                (Some(v), None) => out.push_str(&val_spec(v, spec)),
+                (None, _) => out.push_str(&format!("{{{}}}", l)),
+            },
+        }
+    }
+    out
+}
+
+/// Is `got` the text of the normal form verbatim and in order, with anything at all in the holes?
+fn text_is_verbatim(got: &str, nf: &[NPart]) -> bool {
+    let b = got.as_bytes();
+    // positions reachable after the parts so far
+    let mut at: Vec<usize> = vec![0];
+    for p in nf {
+        match p {
+            NPart::Text(t) => {
+                at = at.iter().filter(|&&p| b[p..].starts_with(t.as_bytes())).map(|&p| p + t.len()).collect();
+            }
+            NPart::Hole(_) => {
+                if let Some(&min) = at.iter().min() {
+                    at = (min..=b.len()).collect();
+                }
+            }
+        }
+        if at.is_empty() {
+            return false;
+        }
+    }
+    at.contains(&b.len())
+}
+
+static FLAG_MODEL_OK: OnceLock<bool> = OnceLock::new();
+
+/// The hole model under flags is an assumption about Value's Display (it forwards the formatter to
+/// the std impl of the captured value). Checked once; if it does not hold, only fragments are judged.
+fn flag_model_ok(r: &mut Report) -> bool {
+    if let Some(ok) = FLAG_MODEL_OK.get() {
+        return *ok;
+    }
+    let mut bad = Vec::new();
+    let vals = [
+        Val::I(0),
+        Val::I(-1),
+        Val::I(42),
+        Val::I(101),
+        Val::I(i64::MIN),
+        Val::I(i64::MAX),
+        Val::S("s1".into()),
+        Val::S("s2日 ".into()),
+        Val::S("héllo wörld".into()),
+        Val::S("s3{a}".into()),
+        Val::S(String::new()),
+        Val::B(true),
+        Val::B(false),
+        Val::F(1.5),
+        Val::F(-0.25),
+        Val::F(1e21),
+        Val::F(3.0),
+    ];
+    for spec in 0..SPECS.len() {
+        for v in &vals {
+            let got = fmt_spec(spec, &v.to_value());
+            let want = val_spec(v, spec);
+            if got != want {
+                bad.push(format!("{:?} under {} is {:?}, std gives {:?}", v, SPECS[spec].0, got, want));
+            }
+        }
+    }
+    let ok = bad.is_empty();
+    if !ok && FLAG_MODEL_OK.get().is_none() {
+        r.inconclusive(format!(
+            "Value's Display under an outer format spec differs from std's formatting of the same value ({}): holes under outer flags are not judged, fragments still are",
+            bad.join("; ")
+        ));
+    }
+    *FLAG_MODEL_OK.get_or_init(|| ok)
+}
+
+/// Render `tpl` through `Display` under each of `specs` on the outer placeholder: the `Render`,
+/// the `Template` itself and a `Render` nested in another Display's `write!(f, "{:6}", ..)`.
+/// Returns what the `Render` wrote per spec (for comparing equal templates).
+fn check_outer_flags(r: &mut Report, cx: &Ctx, tpl: &Template, variant: &str, m: &[MPart], props: &[Entry], specs: &[usize]) -> Vec<Option<String>> {
+    let holes_judged = flag_model_ok(r);
+    let nf = normal(m);
+    let want_tpl = reference_render(m, &[]);
+    let mut rendered = Vec::new();
+    for &spec in specs {
+        let (lit, class) = SPECS[spec];
+        let want = reference_render_spec(m, props, spec);
+        // `{:6}` / `{:.2}` are also reached through another Display impl, itself under plain `{}` or flags
+        let nested = spec == SPEC_W6 || spec == SPEC_P2 || spec % 3 == 0;
+        let res = catch(|| {
+            let render = tpl.render(props);
+            let mut outs: Vec<(&'static str, String, bool)> = Vec::new();
+            outs.push(("Display of Template", fmt_spec(spec, tpl), true));
+            outs.push(("Display of Render", fmt_spec(spec, &render), false));
+            if nested {
+                outs.push(("write!(f, spec, render) inside another Display impl", format!("{}", Nested(&render, spec)), false));
+                outs.push(("write!(f, spec, render) inside another Display impl that is itself padded", format!("{:>40.30}", Nested(&render, spec)), false));
+                outs.push(("write!(f, spec, template) inside another Display impl", Nested(tpl, spec).to_string(), true));
+            }
+            outs
+        });
+        let witness = |path: &str, got: &str, want: &str| {
+            json!({"model": format!("{:?}", m), "props": format!("{:?}", props), "variant": variant, "spec": lit, "through": path, "got": got, "want": want})
+        };
+        match res {
+            Err(msg) => {
+                viol(
+                    r,
+                    cx,
+                    &format!("C16:render-panics:outer-format-flags:{}", class),
+                    format!("rendering the {} template under {} panicked: {}", variant, lit, msg),
+                    witness("Display", "", &want),
+                );
+                rendered.push(None);
+            }
+            Ok(outs) => {
+                r.observe("renders-under-outer-format-flags", outs.len() as u64);
+                r.observe(&format!("renders-under-outer-{}", class), outs.len() as u64);
+                // without values every hole is `{label}`: that output is text only
+                let text_bad = outs.iter().any(|(_, got, no_values)| *no_values && *got != want_tpl);
+                let mut of_render = None;
+                for (path, got, no_values) in outs {
+                    let want: &str = if no_values { &want_tpl } else { &want };
+                    if of_render.is_none() && !no_values {
+                        of_render = Some(got.clone());
+                    }
+                    if got == want {
+                        continue;
+                    }
+                    if no_values || text_bad || !text_is_verbatim(&got, &nf) {
+                        viol(
+                            r,
+                            cx,
+                            &format!("C16:text-not-verbatim:outer-format-flags:{}", class),
+                            format!(
+                                "{} of the {} template under the outer placeholder {} wrote {:?}; with the text fragments verbatim it is {:?}",
+                                path, variant, lit, got, want
+                            ),
+                            witness(path, &got, want),
+                        );
+                    } else if holes_judged {
+                        viol(
+                            r,
+                            cx,
+                            &format!("C16:hole-differs:outer-format-flags:{}", class),
+                            format!(
+                                "{} of the {} template under the outer placeholder {} wrote {:?}: the text is verbatim but a hole is not its value (through its formatter) formatted with {}, which gives {:?}",
+                                path, variant, lit, got, lit, want
+                            ),
+                            witness(path, &got, want),
+                        );
+                    }
+                }
+                rendered.push(of_render);
+            }
+        }
+    }
+    rendered
+}
+
+fn plain_model(m: &[MPart]) -> bool {
+    m.iter().all(|p| !matches!(p, MPart::Hole(_, Some(_))))
+}
+
+/// Templates that are `==` must render identically under the same outer flags.
+fn check_equal_render_alike(r: &mut Report, cx: &Ctx, specs: &[usize], outs: &[(&[MPart], &Vec<Option<String>>)]) {
+    // (formatters are not part of equality: only formatter-free models are comparable)
+    if outs.iter().any(|(m, _)| !plain_model(m)) {
+        return;
+    }
+    for (k, &spec) in specs.iter().enumerate() {
+        let (lit, class) = SPECS[spec];
+        for w in outs.windows(2) {
+            r.observe("equal-templates-compared-under-outer-format-flags", 1);
+            if let (Some(a), Some(b)) = (&w[0].1[k], &w[1].1[k]) {
+                if a != b {
+                    viol(
+                        r,
+                        cx,
+                        &format!("C16:equal-templates-render-differently:outer-format-flags:{}", class),
+                        format!("two splittings of one normal form render {:?} and {:?} under the outer placeholder {}", a, b, lit),
+                        json!({"a": format!("{:?}", w[0].0), "b": format!("{:?}", w[1].0), "spec": lit}),
+                    );
+                }
+            }
+        }
+    }
+}
+
+/// Hand-written templates under every spec (sub-sampled under Miri).
+fn outer_flags_fixed(r: &mut Report) {
+    let case = || json!({"section": "outer-flags-fixed"});
+    let cx = Ctx { case: &case };
+    let ho = |l: &str| MPart::Hole(l.to_string(), Some(F_OUTER));
+    let hb = |l: &str| MPart::Hole(l.to_string(), Some(0));
+    let props: Vec<Entry> = vec![
+        e("i", Val::I(42)),
+        e("f", Val::F(1.5)),
+        e("s", Val::S("héllo wörld".into())),
+        e("b", Val::B(true)),
+        e("i", Val::I(7)),
+        e("n", Val::I(i64::MIN)),
+        e("", Val::S(String::new())),
+    ];
+    // groups of splittings of one normal form
+    let groups: Vec<Vec<Model>> = vec![
+        vec![vec![t("a")], vec![t(""), t("a"), t("")]],
+        vec![vec![t("hello wörld")], vec![t("hello"), t(" "), t("wö"), t("rld")], vec![t("hello wö"), t(""), t("rld")]],
+        vec![vec![t("user "), h("i"), t(" logged in")], vec![t("us"), t("er "), h("i"), t(" logged"), t(" in")]],
+        vec![vec![t("日本"), t("語"), h("s"), t("")], vec![t("日本語"), h("s")]],
+        vec![vec![h("f"), t("-"), h("missing"), t("-"), h("b"), t("-"), h("n"), h("")]],
+        vec![vec![t("x"), ho("i"), t("|"), ho("f"), t("|"), ho("s"), t("|"), hb("i"), t("|"), ho("missing"), t("y")]],
+        vec![vec![], vec![t("")]],
+        vec![vec![t("{"), h("a b"), t("} 😀"), h("s")], vec![t("{"), h("a b"), t("}"), t(" "), t("😀"), h("s")]],
+    ];
+    let all: Vec<usize> = (0..SPECS.len()).collect();
+    for group in &groups {
+        if !pick() {
+            continue;
+        }
+        r.eval();
+        let mut outs: Vec<Vec<Option<String>>> = Vec::new();
+        for (k, m) in group.iter().enumerate() {
+            let mut g = Rng::stream(0, &[16, 4, k as u64]);
+            let got = if k % 2 == 0 {
+                let parts = parts_of(m, &NO_ARENA, How::Borrowed, &mut g);
+                let tpl = Template::new_ref(&parts);
+                let mut got = check_outer_flags(r, &cx, &tpl, "new_ref", m, &props, &all);
+                check_outer_flags(r, &cx, &tpl.to_owned(), "to_owned", m, &[], &all);
+                if let [MPart::Text(s)] = &m[..] {
+                    got = check_outer_flags(r, &cx, &Template::literal_ref(s), "literal", m, &props, &all);
+                }
+                got
+            } else {
+                let tpl = Template::new_owned(owned_parts(m, &mut g));
+                check_outer_flags(r, &cx, &tpl, "new_owned", m, &props, &all)
+            };
+            outs.push(got);
+        }
+        let pairs: Vec<(&[MPart], &Vec<Option<String>>)> = group.iter().map(|m| &m[..]).zip(outs.iter()).collect();
+        check_equal_render_alike(r, &cx, &all, &pairs);
+    }
+}
+
 const COUNTED: u64 = 1_000_000;
 
 fn seeded_case(r: &mut Report, seed: u64, i: u64) {
@@ -1066,6 +1399,16 @@ fn seeded_case(r: &mut Report, seed: u64, i: u64) {
             );
         }
     }
+    // Display under format flags on the outer placeholder: three specs per case (own stream, so the
+    // draws above are what they were), one construction variant of A, the re-split and its re-split
+    let mut g2 = Rng::stream(seed, &[16, 3, i]);
+    let first = g2.usize(SPECS.len());
+    let specs = [first, (first + 1 + g2.usize(3)) % SPECS.len(), (first + 4 + g2.usize(SPECS.len() - 4)) % SPECS.len()];
+    let (name, tv) = variants[g2.usize(variants.len())];
+    let oa = check_outer_flags(r, &cx, tv, name, &ma, &props, &specs);
+    let ob = check_outer_flags(r, &cx, &tb, "new_ref", &mb, &props, &specs);
+    let oe = check_outer_flags(r, &cx, &te, "new_owned", &me, &props, &specs);
+    check_equal_render_alike(r, &cx, &specs, &[(&ma[..], &oa), (&mb[..], &ob), (&me[..], &oe)]);
 }
 
 /// Unrelated pairs only: the cheapest way to reach fragment boundaries that fall inside a
@@ -1594,6 +1937,7 @@ fn main() {
             Some("seeded") => seeded_case(&mut r, seed, index),
             Some("unrelated") => unrelated_case(&mut r, seed, index),
             Some("fixed-pairs") => fixed_pairs(&mut r),
+            Some("outer-flags-fixed") => outer_flags_fixed(&mut r),
             _ => macro_sites(&mut r),
         }
         std::process::exit(r.finish());
@@ -1608,6 +1952,7 @@ fn main() {
     }
     fixed_pairs(&mut r);
     macro_sites(&mut r);
+    outer_flags_fixed(&mut r);
 
     let n_seeded = if miri { (4 * args.scale / 100).max(1) } else { args.n(300_000, 12_000_000) };
     par_cases(&mut r, &args, n_seeded, |i, r| seeded_case(r, seed, i));
